@@ -95,6 +95,46 @@ def body(chk):
             chk.paths_clean('init<%s>:%s:allocations-balance-to-one-live-instance-per-handle' % (scalar, n), bad_own, key='init:ownership', family='ownership',
                             sample=dict(obligation='masa_init(H,%s) ownership' % n, paths=len(paths), why=why),
                             replay=vg_replay(chk, ['masa_init<Scalar>("a","%s"); masa_init<Scalar>("a","%s"); masa_init<Scalar>("b","euler_1d");' % (n, n)], why, scalar, leak=True))
+        # ---- 2b. the failing calls (unknown solution name on a fresh or an existing handle, unknown handle): when the fatal error is raised the
+        #          registry may not hold a pointer to a released instance (it is dereferenced by every later call in the exception build), and
+        #          the static destructor that exit(1) runs next must release every instance exactly once
+        dtors = [n for n in w.prog.functions if re.search(r'MasterMS<%s>::~MasterMS\(\)' % re.escape(scalar), w.models.demangled(n))]
+        fsel = S.api_fn(w, 'masa_select_mms', scalar, 'std::string')
+        for label, thunk, script in (('masa_init(H,unknown-solution)', lambda ex: ex.call(finit, [S.new_string(ex, H), S.new_string(ex, 'no_such_solution')]),
+                                      ['masa_init<Scalar>("a","euler_1d"); masa_init<Scalar>("b","heateq_1d_unsteady_var"); masa_init<Scalar>("a","no_such_solution");']),
+                                     ('masa_select_mms(H)', lambda ex: ex.call(fsel, [S.new_string(ex, H)]),
+                                      ['masa_init<Scalar>("a","euler_1d"); masa_init<Scalar>("b","heateq_1d_unsteady_var"); masa_select_mms<Scalar>("ghost");'])):
+            S.install_api_models(w)
+            paths = ex.explore(st, thunk, 16)
+            bad, why, nterm = [], '', 0
+            for p in paths:
+                if p['error'] is not None or bad_events(p):
+                    bad.append(pc_term(p['pc']))
+                    why = str(p['error'] or bad_events(p)[:2])
+                    continue
+                if p['terminal'] is None:
+                    continue
+                nterm += 1
+                ptr1, ents1 = R.snapshot(w, p['st'], scalar)
+                dead = [k for k, o in ents1.items() if isinstance(o, Ptr) and o.rid not in p['st'].live_heap]
+                if isinstance(ptr1, Ptr) and ptr1 is not NULL and ptr1.rid not in p['st'].live_heap and ptr1.rid in [o.rid for o in objs]:
+                    dead.append('<selected>')
+                if dead:
+                    bad.append(pc_term(p['pc']))
+                    why = 'at the fatal error the registry still maps %r to released instance(s)' % (dead,)
+                    continue
+                if dtors:
+                    rid = R.registry_global(p['st'], scalar)
+                    n0 = len(p['st'].events)
+                    for q in ex.explore(p['st'], lambda ex: ex.call(dtors[0], [Ptr(rid, 0)]), 16):
+                        if q['error'] is not None or bad_events(q, n0) or any(o.rid in q['st'].live_heap for o in ents1.values() if isinstance(o, Ptr)):
+                            bad.append(tm.land(pc_term(p['pc']), pc_term(q['pc'])))
+                            why = 'static destructor after the fatal exit: %s' % str(q['error'] or bad_events(q, n0)[:2] or 'instance not released')
+            if nterm == 0:
+                bad.append(tm.TRUE)
+                why = 'no path of %s reaches the fatal error' % label
+            chk.paths_clean('fatal<%s>:%s:registry-holds-only-live-instances-and-exit-releases-each-once' % (scalar, label), bad, key='fatal:%s' % label.split('(')[0], family='ownership',
+                            sample=dict(obligation=label, paths=len(paths), fatal_paths=nterm, why=why), replay=vg_replay(chk, script, why, scalar, leak=True))
         # ---- 3. printid balanced; list/select clean
         for api, sig in (('masa_printid', ''), ('masa_list_mms', ''), ('masa_display_param', ''), ('masa_display_vec', ''), ('masa_test_poly', '')):
             try:
